@@ -17,8 +17,8 @@ META = {
         'assumptions': ['Kani/CBMC model of rustc MIR semantics', 'models of ndarray::Array2 and hashbrown::HashSet in /verif/models meet the documented contracts', 'stored rows contain at least one base and counts equal the number of non-gap symbols (what build/merge/delete store)'],
     },
     'C04': {
-        'bounds': 'AlnWriter: one step / finalise from every state satisfying the invariant, contig layouts of total length 12-17 at h=2 and h=3 (k=5, 7); mapping: <= 3 reference k-mers x 2 samples; reference indexing (RefSka::new): one contig of 5 bases (= k) and of 6 symbols with N (quick), 6 and 7-with-N (thorough), k=5; repeat coordinates (thorough): contigs AC?TA|?|AC?TA and AC?TA|AC?TAC with symbolic middle bases',
-        'outside': ['the repeat mask coordinates computed by RefSka::new (--repeat-mask) beyond the two small thorough-tier layouts with concrete arms (C04.ref.mid.*); harnesses with every base symbolic did not finish in 2 h; in the quick tier the repeat clause rests on C04.fin only (the writer masks exactly the coordinates it is given)', 'FASTA text of the output', 'rayon schedule of pseudoalignment (sequential model)', 'references longer than the bounds', 'k > 7 for the writer (its code depends on k only through h)', 'generic_modes::map beyond the calls listed'],
+        'bounds': 'AlnWriter: one step / finalise from every state satisfying the invariant, contig layouts of total length 12-17 at h=2 and h=3 (k=5, 7); mapping: <= 3 reference k-mers x 2 samples; reference indexing (RefSka::new): one contig of 5 bases (= k) and of 6 symbols with N (quick), 6 and 7-with-N (thorough), k=5',
+        'outside': ['the repeat mask coordinates computed by RefSka::new (--repeat-mask): harnesses with every base symbolic did not finish in 2 h and a reduced one (concrete arms, symbolic middle bases, contigs 5|1|5) was stopped after 45 min without a verdict, so the part of the property about repeat masking rests on C04.fin only (the writer masks exactly the coordinates it is given) and the defect the property anchors there is NOT decided', 'FASTA text of the output', 'rayon schedule of pseudoalignment (sequential model)', 'references longer than the bounds', 'k > 7 for the writer (its code depends on k only through h)', 'generic_modes::map beyond the calls listed'],
         'assumptions': ['Kani/CBMC model of rustc MIR semantics', 'the AlnWriter representation invariant of DESIGN appendix B (checked inductive: init + step; its adequacy is cross-checked by C04.hist without the invariant)', 'centres arrive in reference order and are valid (delivered by RefSka::new/map: C01.win, C04.map)', 'library models in /verif/models'],
     },
     'C02': {
